@@ -4,6 +4,7 @@ import (
 	"bytes"
 	"context"
 	"fmt"
+	"os"
 
 	cmtmerkle "github.com/cometbft/cometbft/crypto/merkle"
 	cmtproto "github.com/cometbft/cometbft/proto/tendermint/types"
@@ -12,7 +13,6 @@ import (
 	"github.com/oasisprotocol/oasis-core/go/common/cbor"
 	consensus "github.com/oasisprotocol/oasis-core/go/consensus/api"
 	"github.com/oasisprotocol/oasis-core/go/consensus/api/transaction"
-	"github.com/oasisprotocol/oasis-core/go/consensus/cometbft/light"
 	"github.com/oasisprotocol/oasis-core/go/consensus/cometbft/stateless"
 
 	"verifharness/internal/coqout"
@@ -73,15 +73,8 @@ func chainLightBlocks(c BCase) []*cmttypes.LightBlock {
 }
 
 func runAPI(res *bresult, c BCase, lb *cmttypes.LightBlock, t *tb, r *rec) (q string, accept bool) {
-	lbs := chainLightBlocks(c)
-	var at *cmttypes.LightBlock
-	for _, x := range lbs {
-		if x.Height == c.Height {
-			at = x
-		}
-	}
-	have := at != nil
-	lc := must(light.VerifNewClientWithTrustedLightBlocks(lbs))
+	lc, lbs, verifiable := caseLightClient(c)
+	have := verifiable(c.Height)
 	core := stateless.NewCore(&apiProvider{c: c}, lc, stateless.Config{})
 	core.SetQueriers(nil, &fakeQF{c.StateParams}, nil)
 	ctx := context.Background()
@@ -198,6 +191,9 @@ func runAPI(res *bresult, c BCase, lb *cmttypes.LightBlock, t *tb, r *rec) (q st
 		if err == nil && (!have || !inList(raw, c.Honest.Txs)) {
 			bad("SubmitTxWithProof accepted a proof for a transaction that is not in the block of the proof's height")
 		}
+	}
+	if c.Forge != "" && err != nil && os.Getenv("C19_DEBUG") != "" {
+		fmt.Fprintln(os.Stderr, c.Forge, err)
 	}
 	res.verdict = bindVerdict(c.Kind, err)
 	accept = err == nil
